@@ -457,7 +457,9 @@ def rule_r(F):
     from cao import rooting
     res = []
     maygc = rooting.MayGc(F)
-    fns = [f for f in F.fns if f.mir and vm_side(f)]
+    # functions that receive an ObjectGcGuard through a generic `impl Into<Value>` parameter release the guard themselves
+    gi = rooting.guard_instantiations(F)
+    fns = [f for f in F.fns if f.mir and (vm_side(f) or f.short in gi)]
     returns_unrooted = set()
     for _ in range(4):
         an = rooting.Analysis(F, maygc, returns_unrooted)
@@ -539,7 +541,27 @@ def rule_r(F):
             key = "C02/R/%s/%s" % (where, origin)
             msg = ("%s value `%s` (line %s) is not reachable from any GC root while a call that may collect runs: %s — if the "
                    "object has no other reference it is freed while still in use" % (h["origin_kind"], origin, h["origin_ln"], sites))
-            if f.short == "vm::instr_execution::register_upvalue" and origin == "closure" and exempt_ok:
+            if f.short in gi and "[guard moved in by" in origin:
+                # decided per caller by the capacity argument (cao/capacity.py)
+                from cao import capacity
+                by_caller = {}
+                for _param, sites_ in gi[f.short].items():
+                    for caller, ln in sites_:
+                        by_caller.setdefault(caller, []).append(ln)
+                for caller, lines in sorted(by_caller.items()):
+                    cf = F.fn(caller)
+                    good, why = capacity.decide_caller(F, maygc, cf, lines)
+                    ckey = "C02/R/%s/guard-released-into-%s" % (caller.rsplit("::", 1)[-1], f.name)
+                    if good:
+                        res.append(ok("C02.R", ckey, cf.loc(lines[0]),
+                                      "%s hands a guard to %s, which converts it to an unrooted Value before inserting; safe because the "
+                                      "insertion cannot allocate: %s" % (cf.name, f.name, why)))
+                    else:
+                        res.append(bad("C02.R", ckey, cf.loc(lines[0]),
+                                       "%s moves an ObjectGcGuard into %s (line %s): the guard is converted to a plain Value, then the hash "
+                                       "part is extended while the object is referenced by nothing the collector sees (the key list is "
+                                       "updated after the insertion) - %s" % (cf.name, f.name, lines, why)))
+            elif f.short == "vm::instr_execution::register_upvalue" and origin == "closure" and exempt_ok:
                 res.append(ok("C02.R", key, f.loc(h["ln"]), "exempt: every RegisterUpvalue emission is preceded by CopyLast (C02.X), the closure is still on the stack", exempt=True))
             else:
                 res.append(bad("C02.R", key, f.loc(h["ln"]), msg))
